@@ -2,6 +2,7 @@ import FitModel.Encode
 import FitModel.Items
 import FitProofs.NoPanicField
 import FitProofs.Framing
+import FitProofs.ListLemmas
 /-
   C05: what `Encode` writes for a message is the serialisation of a definition item and a data item
   that fits it: the stream is self-describing.
@@ -453,5 +454,217 @@ theorem encodeOne_self_describing (P : Profile) (hwf : ProfileWF P = true) (arch
     ∃ its : List Item, bs = serialize its ∧ ∀ st : DecSt, 0 < st.defs.length → ItemsFit P st its := by
   obtain ⟨fs, parts, hbs, hfit, hd⟩ := encodeOne_items P hwf arch m bs h
   exact ⟨_, hbs, fun st hst => pair_fits P st _ parts hst rfl rfl hd hfit⟩
+
+end Fit
+
+namespace Fit
+
+/-! ### message groups: one shared definition, then one data record per message -/
+
+theorem insertField_mem (pf : PField) (l : List PField) (x : PField) (h : x ∈ insertField pf l) : x = pf ∨ x ∈ l := by
+  induction l with
+  | nil => simp only [insertField, List.mem_singleton] at h; exact Or.inl h
+  | cons y ys ih =>
+    unfold insertField at h
+    split at h
+    · exact Or.inr h
+    · split at h
+      · cases h with
+        | head => exact Or.inl rfl
+        | tail _ h' => exact Or.inr h'
+      · cases h with
+        | head => exact Or.inr (List.mem_cons_self ..)
+        | tail _ h' =>
+          rcases ih h' with h1 | h1
+          · exact Or.inl h1
+          · exact Or.inr (List.mem_cons_of_mem _ h1)
+
+theorem foldl_insertField_mem (l acc : List PField) (x : PField)
+    (h : x ∈ l.foldl (fun acc pf => insertField pf acc) acc) : x ∈ l ∨ x ∈ acc := by
+  induction l generalizing acc with
+  | nil => exact Or.inr h
+  | cons y ys ih =>
+    simp only [List.foldl_cons] at h
+    rcases ih _ h with h1 | h1
+    · exact Or.inl (List.mem_cons_of_mem _ h1)
+    · rcases insertField_mem y acc x h1 with h2 | h2
+      · exact Or.inl (h2 ▸ List.mem_cons_self ..)
+      · exact Or.inr h2
+
+theorem mapM_some_all {α β} (f : α → Option β) (l : List α) (r : List β) (h : l.mapM f = some r) :
+    ∀ y ∈ r, ∃ x ∈ l, f x = some y := by
+  induction l generalizing r with
+  | nil => simp at h; subst h; intro y hy; cases hy
+  | cons a as ih =>
+    simp only [List.mapM_cons] at h
+    cases ha : f a with
+    | none => rw [ha] at h; simp at h
+    | some b =>
+      rw [ha] at h
+      cases hr : as.mapM f with
+      | none => rw [hr] at h; simp at h
+      | some bs =>
+        rw [hr] at h
+        simp at h
+        subst h
+        intro y hy
+        cases hy with
+        | head => exact ⟨a, List.mem_cons_self .., ha⟩
+        | tail _ hy' =>
+          obtain ⟨x, hx, hfx⟩ := ih bs hr y hy'
+          exact ⟨x, List.mem_cons_of_mem _ hx, hfx⟩
+
+/-- data records of a group, all fitting one definition -/
+theorem group_datas (arch : Endian) (pm : PMsg) (fs : List PField) (ms : List Msg) (b : Bytes)
+    (hfw : ∀ pf ∈ fs, fieldWF pm pf = true)
+    (h : concatE (ms.map fun m => mesgBytes arch pm m fs) = .ok b) :
+    ∃ partss : List (List Bytes), partss.length = ms.length ∧
+      b = serialize (partss.map fun parts => Item.data 0 parts []) ∧
+      ∀ parts ∈ partss, FieldsFit (fs.map fdOf) parts := by
+  induction ms generalizing b with
+  | nil =>
+    simp only [List.map_nil, concatE] at h
+    cases h
+    exact ⟨[], rfl, rfl, fun _ h => by cases h⟩
+  | cons m ms ih =>
+    simp only [List.map_cons] at h
+    cases hm : mesgBytes arch pm m fs with
+    | error e => rw [hm] at h; simp [concatE] at h
+    | ok bm =>
+      rw [hm] at h
+      simp only [concatE] at h
+      cases hr : concatE (ms.map fun m => mesgBytes arch pm m fs) with
+      | error e => rw [hr] at h; cases h
+      | ok br =>
+        rw [hr] at h
+        cases h
+        obtain ⟨partss, hl, hb, hfit⟩ := ih br hr
+        unfold mesgBytes at hm
+        split at hm
+        · rename_i body hc
+          injection hm with hm
+          subst hm
+          obtain ⟨parts, hp1, hp2⟩ := concatE_ok _ _ hc
+          refine ⟨parts :: partss, by simp [hl], ?_, ?_⟩
+          · rw [hb, hp2]
+            simp [serialize, serializeItem, u8]
+          · intro p hp
+            cases hp with
+            | head => exact parts_fit arch pm m fs parts hfw hp1
+            | tail _ hp' => exact hfit p hp'
+        · cases hm
+
+/-- items of a group fit, from any state with a definition table -/
+theorem group_fits (P : Profile) (st : DecSt) (d : DefMsg) (partss : List (List Bytes)) (hdefs : 0 < st.defs.length)
+    (hl : d.localT = 0) (hdev : d.dev = []) (hwf : DefnWF d false)
+    (hfit : ∀ parts ∈ partss, FieldsFit d.fields parts) :
+    ItemsFit P st (.defn d false :: partss.map fun parts => Item.data 0 parts []) := by
+  refine ⟨hwf, ?_⟩
+  intro st' hstep
+  have hd0 : st'.defs.getD 0 none = some d ∧ 0 < st'.defs.length := by
+    unfold stepItem at hstep
+    simp only at hstep
+    split at hstep
+    · cases hstep
+    · split at hstep
+      · cases hstep
+      · cases hstep
+        simp only [Bool.false_eq_true, ↓reduceIte, DecSt.eat, hl]
+        refine ⟨?_, by rw [length_setAt]; exact hdefs⟩
+        rw [getD_setAt_same _ _ _ _ hdefs]
+        congr 1
+        cases d; simp_all
+  clear hstep
+  induction partss generalizing st' with
+  | nil => trivial
+  | cons parts rest ih =>
+    simp only [List.map_cons]
+    refine ⟨⟨by omega, ?_⟩, ?_⟩
+    · intro dm hdm
+      rw [hd0.1] at hdm
+      cases hdm
+      rw [hdev]
+      exact ⟨hfit parts (List.mem_cons_self ..), trivial⟩
+    · intro st'' hstep
+      apply ih (fun p hp => hfit p (List.mem_cons_of_mem _ hp)) st''
+      -- a data record does not touch the definition table
+      unfold stepItem at hstep
+      have := (stepData_n P 0 false parts [] (st'.eat [u8 0]) st'' (by
+        intro dm hdm
+        simp only [Bool.false_eq_true, ↓reduceIte, DecSt.eat] at hdm
+        rw [hd0.1] at hdm
+        cases hdm
+        rw [hdev]
+        exact ⟨hfit parts (List.mem_cons_self ..), trivial⟩) hstep).2
+      simp only [DecSt.eat] at this
+      rw [this]
+      exact hd0
+
+end Fit
+
+namespace Fit
+
+/-- **Message groups are self-describing too**: what `Encode` writes for a slice of messages is one
+    definition record followed by one data record per message, each fitting the definition — as
+    long as the union of the valid fields has fewer than 256 members (the definition record counts
+    fields in one byte). -/
+theorem encodeGroup_self_describing (P : Profile) (hwf : ProfileWF P = true) (arch : Endian) (ms : List Msg)
+    (bs : Bytes) (hne : ms ≠ []) (h : encodeGroup P arch ms = .ok bs) :
+    ∃ (d : DefMsg) (partss : List (List Bytes)),
+      bs = serialize (.defn d false :: partss.map fun parts => Item.data 0 parts []) ∧
+      partss.length = ms.length ∧
+      (d.fields.length < 256 → ∀ st : DecSt, 0 < st.defs.length →
+        ItemsFit P st (.defn d false :: partss.map fun parts => Item.data 0 parts [])) := by
+  unfold encodeGroup at h
+  cases ms with
+  | nil => exact absurd rfl hne
+  | cons m0 rest =>
+    simp only at h
+    cases hpm : P.msg? m0.num with
+    | none => rw [hpm] at h; cases h
+    | some pm =>
+      rw [hpm] at h
+      simp only at h
+      split at h
+      · cases h
+      · cases hdefs : (m0 :: rest).mapM (encodeMesgDef pm) with
+        | none => rw [hdefs] at h; cases h
+        | some defs =>
+          rw [hdefs] at h
+          simp only at h
+          generalize hfs : defs.flatten.foldl (fun acc pf => insertField pf acc) [] = fs at h
+          cases hc : concatE ((m0 :: rest).map fun m => mesgBytes arch pm m fs) with
+          | error e => rw [hc] at h; cases h
+          | ok b =>
+            rw [hc] at h
+            injection h with h
+            subst h
+            have hmw := msg?_wf P hwf m0.num pm hpm
+            obtain ⟨hnum, hlay, hinv, hall⟩ := msgWF_bounds pm hmw
+            -- every field of the union is a lookup entry of the message
+            have hmem : ∀ pf ∈ fs, pf ∈ pm.fields := by
+              intro pf hp
+              rw [← hfs] at hp
+              rcases foldl_insertField_mem _ _ _ hp with h1 | h1
+              · rw [List.mem_flatten] at h1
+                obtain ⟨l, hl, hpl⟩ := h1
+                obtain ⟨mx, _, hmx⟩ := mapM_some_all _ _ _ hdefs l hl
+                exact (encodeMesgDef_mem pm mx l hmx).1 pf hpl
+              · cases h1
+            have hfw : ∀ pf ∈ fs, fieldWF pm pf = true := fun pf hp => hall pf (hmem pf hp)
+            obtain ⟨partss, hlen, hb, hfit⟩ := group_datas arch pm fs (m0 :: rest) b hfw hc
+            refine ⟨defOf arch m0.num fs, partss, ?_, hlen, ?_⟩
+            · rw [defBytes_eq, hb]
+              simp [serialize]
+            · intro hlt st hst
+              apply group_fits P st _ partss hst rfl rfl ?_ hfit
+              refine ⟨by show (0 : Nat) < 16; omega, ?_, hlt, ?_, (fun h => by cases h), (fun h => by cases h)⟩
+              · show m0.num < 65536
+                rw [← msg?_num P m0.num pm hpm]; exact hnum
+              · intro f hf
+                simp only [defOf, List.mem_map] at hf
+                obtain ⟨pf, hpf, rfl⟩ := hf
+                have facts := fieldWF_facts pm pf (hfw pf hpf)
+                exact ⟨by have := facts.num; show pf.num < 256; omega, szOf_lt pf, tcBase_lt _⟩
 
 end Fit
